@@ -4,16 +4,30 @@ correspondence generators and runners.
 A 'run' case is the documented call pattern on the real library:
     rule = cpl.ReversibleRule(init_state, R); out = cpl.evolve(ca, T, rule, r=1)
 with init_state passed in one of the ways named by `way`:
-    'list'      a Python list (a separate object)              -> Coq: ArgList 1
-    'array'     a fresh np.array (a separate object)           -> Coq: ArgArray 1
-    'view'      ca[row], a row VIEW of the automaton evolved   -> Coq: ArgView 0 row
-    'viewother' other[row], a row view of another 2D array     -> Coq: ArgView 1 row
-Observed: the returned array and every object the caller holds, after the call.
+    'list'      a separate Python list or tuple (`pkind`)            -> Coq: ArgList 1
+    'array'     a separate fresh np.array of dtype `pkind`           -> Coq: ArgArray 1
+    'view'      ca[row], a row VIEW of the automaton evolved         -> Coq: ArgView 0 row
+    'viewother' other[row], a row view of another 2D array           -> Coq: ArgView 1 row
+`dtype` is the dtype of the automaton (default int64; np.array([[0, 1, ..]]) of Python ints IS int64 here),
+`odtype` that of the other array.  Observed: the returned array (or the exception) and every object the
+caller holds after the call (also when the call raised).
 A 'retrace' case runs forward T steps and then backward from the last two rows.
+A 'continue' case evolves T1 steps and then evolves the result T2 more steps with the SAME rule object;
+the rule's own previous-state vector is observed after each call.
+
+extra_checks also runs an AST gate on ReversibleRule.__init__ of the tree under test (fail-closed): the
+no-alias theorems speak about `mk_reversible`, which allocates a fresh copy by definition; the source line
+that must do the same is `self._previous_state = np.array(init_state)`.
 """
+import ast
+import glob
 import itertools
+import json
+import os
+import re
+import time
 import numpy as np
-from harness.driver import call_impl, cnat, cN, czlist, cgrid, clist, cres
+from harness.driver import call_impl, cnat, cN, cbool, czlist, cgrid, clist, cres
 
 ID = 'C13'
 COQ_IMPORTS = 'From CPL Require Import Model.Base Model.Reversible Corr.C13.\nOpen Scope Z_scope.'
@@ -21,30 +35,72 @@ NONTRIVIAL_RULE = ('non-trivial = the call returned and made at least one step (
                    'dicts. Sweep: all 256 rules x every binary (prev, init) pair on rings N <= 3 (quick) / N <= 4 '
                    '(thorough), ways of passing init_state rotated over list / array / row view, plus the documented '
                    'pattern ReversibleRule(ca[0], R); evolve(ca, ..) for every rule and every state N <= 3 (4); '
-                   'random N <= 30 with histories; forward-then-backward runs')
+                   'dtype bucket (int64 / int32 / uint8 / bool automata and views of them, list / tuple / arrays of '
+                   'those dtypes and float64 as init_state, T >= 3); random N <= 30 with histories; '
+                   'forward-then-backward runs; runs continued with the same rule object')
 EXHAUSTIVE = {'quick': False, 'thorough': False}
 NOTES = ['exhaustive over (rule, prev, init) for N <= 3 in the quick tier and N <= 4 in the thorough tier at one fixed '
-         'T; rings N = 5, 6 and N <= 30 are sampled; T is sampled']
-ASSUMPTIONS = ['states are 0/1 ints in int64 automata (the property speaks of binary states; the theorems hold for '
-               'arbitrary integers with ^ = Z.lxor)',
+         'T; rings N = 5, 6 and N <= 30 are sampled; T is sampled',
+         'AST gate on ReversibleRule.__init__ (fail-closed): self._previous_state must be assigned a whitelisted '
+         'copying expression of the init_state parameter']
+ASSUMPTIONS = ['states are 0/1 values in int64 / int32 / uint8 / bool automata (the property speaks of binary states; '
+               'the theorems hold for arbitrary integers with ^ = Z.lxor)',
+               'float64 init_state / automata are outside the domain (`^` raises TypeError): there an exception is '
+               'accepted, the caller\'s objects must still be intact and a returned array must be the model\'s',
                'r = 1, R < 256, len(init_state) = number of cells: outside this domain the real code raises or '
                'ignores surplus entries; the model has the error branches but they are not compared',
-               'memoize=False, integer timesteps']
+               'memoize=False, integer timesteps',
+               'the continue/* bucket reads the private attribute rule._previous_state']
+
+_DT = {'int64': np.int64, 'int32': np.int32, 'uint8': np.uint8, 'bool': np.bool_, 'float64': np.float64}
 
 
 def _bits(N):
     return [list(p) for p in itertools.product((0, 1), repeat=N)]
 
 
-def _run(kind, ca, way, R, T, prev=None, row=0, other=None):
-    c = {'kind': kind, 'op': 'run', 'ca': ca, 'way': way, 'R': R, 'T': T}
+def _run(kind, ca, way, R, T, prev=None, row=0, other=None, dtype=None, pkind=None, odtype=None, op='run', T2=None):
+    c = {'kind': kind, 'op': op, 'ca': ca, 'way': way, 'R': R, 'T': T}
     if way in ('list', 'array'):
         c['prev'] = prev
     else:
         c['row'] = row
     if way == 'viewother':
         c['other'] = other
+    if dtype:
+        c['dtype'] = dtype
+    if pkind:
+        c['pkind'] = pkind
+    if odtype:
+        c['odtype'] = odtype
+    if T2 is not None:
+        c['T2'] = T2
     return c
+
+
+def _rand_way(rng, kind, N, R, T, H=None, op='run', T2=None, dtypes=('int64',)):
+    """one case with a random way of passing init_state (and random dtypes out of `dtypes`)"""
+    H = H or rng.choice([1, 1, 2, 3])
+    ca = [[rng.randint(0, 1) for _ in range(N)] for _ in range(H)]
+    prev = [rng.randint(0, 1) for _ in range(N)]
+    dt = rng.choice(dtypes)
+    way = rng.choice(['list', 'tuple', 'array', 'view0', 'viewlast', 'viewany', 'viewother'])
+    kw = dict(op=op, T2=T2, dtype=dt)
+    if way in ('list', 'tuple'):
+        return _run('%s/%s/%s' % (kind, dt, way), ca, 'list', R, T, prev=prev, pkind=way, **kw)
+    if way == 'array':
+        pk = rng.choice(dtypes)
+        return _run('%s/%s/array_%s' % (kind, dt, pk), ca, 'array', R, T, prev=prev, pkind=pk, **kw)
+    if way == 'view0':
+        return _run('%s/%s/view_row0' % (kind, dt), ca, 'view', R, T, row=0, **kw)
+    if way == 'viewlast':
+        return _run('%s/%s/view_last' % (kind, dt), ca, 'view', R, T, row=H - 1, **kw)
+    if way == 'viewany':
+        return _run('%s/%s/view_any' % (kind, dt), ca, 'view', R, T, row=rng.randrange(H), **kw)
+    other = [[rng.randint(0, 1) for _ in range(N)] for _ in range(rng.randint(1, 3))]
+    od = rng.choice(dtypes)
+    return _run('%s/%s/viewother_%s' % (kind, dt, od), ca, 'viewother', R, T, row=rng.randrange(len(other)),
+                other=other, odtype=od, **kw)
 
 
 def generate(rng, tier):
@@ -82,6 +138,31 @@ def generate(rng, tier):
                         yield _run('ways/array', [init], 'array', R, T, prev=prev)
                         yield _run('ways/view_hist', [prev, init], 'view', R, T, row=0)
                         yield _run('ways/viewother', [init], 'viewother', R, T, row=1, other=[init, prev])
+    # ---- dtypes: int64 / int32 / uint8 / bool automata, views of them, lists, tuples, arrays of those dtypes
+    #      (T >= 3 so that a write through an alias becomes visible in row 0 and in the caller's object)
+    ints = ('int64', 'int32', 'uint8', 'bool')
+    for dt in ints:          # the documented pattern on every integer dtype, all states N <= 3, a few rules
+        for N in (1, 2, 3):
+            for init in _bits(N):
+                for R in (90, 150, 30, rng.randrange(256)):
+                    yield _run('dtype/%s/documented' % dt, [init], 'view', R, rng.randint(3, 5), row=0, dtype=dt)
+    for _ in range(6000 if thorough else 900):
+        yield _rand_way(rng, 'dtype', rng.randint(1, 8), rng.choice([30, 90, 150, 105, rng.randrange(256)]),
+                        rng.randint(3, 7), dtypes=ints)
+    # float64 init_state / float64 automaton: outside the domain (lenient)
+    for _ in range(600 if thorough else 120):
+        N = rng.randint(1, 6)
+        R = rng.choice([90, 150, rng.randrange(256)])
+        T = rng.randint(3, 6)
+        prev = [rng.randint(0, 1) for _ in range(N)]
+        ca = [[rng.randint(0, 1) for _ in range(N)] for _ in range(rng.choice([1, 2]))]
+        pick = rng.randrange(3)
+        if pick == 0:
+            yield _run('dtype/float64/array', ca, 'array', R, T, prev=prev, pkind='float64')
+        elif pick == 1:
+            yield _run('dtype/float64/view_row0', ca, 'view', R, T, row=0, dtype='float64')
+        else:
+            yield _run('dtype/float64/viewother', ca, 'viewother', R, T, row=0, other=[prev], odtype='float64')
     # ---- N = 5, 6: all rules, sampled states
     for N in (5, 6):
         for R in range(256):
@@ -96,24 +177,9 @@ def generate(rng, tier):
                     yield _run('rules/N%d/%s' % (N, way), [init], way, R, T, prev=prev)
     # ---- random larger rings, histories, all ways incl. ca[-1] of a longer history
     for _ in range(4000 if thorough else 500):
-        N = rng.randint(1, 30)
-        H = rng.choice([1, 1, 2, 3, 4])
-        T = rng.choice([1, 2, 3, rng.randint(2, 12)])
-        R = rng.choice([30, 37, 90, 150, 214, rng.randrange(256), rng.randrange(256)])
-        ca = [[rng.randint(0, 1) for _ in range(N)] for _ in range(H)]
-        prev = [rng.randint(0, 1) for _ in range(N)]
-        way = rng.choice(['list', 'array', 'view0', 'viewlast', 'viewany', 'viewother'])
-        if way in ('list', 'array'):
-            yield _run('random/%s' % way, ca, way, R, T, prev=prev)
-        elif way == 'view0':
-            yield _run('random/view_row0', ca, 'view', R, T, row=0)
-        elif way == 'viewlast':
-            yield _run('random/view_last', ca, 'view', R, T, row=H - 1)
-        elif way == 'viewany':
-            yield _run('random/view_any', ca, 'view', R, T, row=rng.randrange(H))
-        else:
-            other = [[rng.randint(0, 1) for _ in range(N)] for _ in range(rng.randint(1, 3))]
-            yield _run('random/viewother', ca, 'viewother', R, T, row=rng.randrange(len(other)), other=other)
+        yield _rand_way(rng, 'random', rng.randint(1, 30),
+                        rng.choice([30, 37, 90, 150, 214, rng.randrange(256), rng.randrange(256)]),
+                        rng.choice([1, 2, 3, rng.randint(2, 12)]), H=rng.choice([1, 1, 2, 3, 4]))
     # ---- forward then backward
     for N in ((1, 2, 3) if thorough else (1, 2)):
         states = _bits(N)
@@ -127,10 +193,50 @@ def generate(rng, tier):
                'prev': [rng.randint(0, 1) for _ in range(N)], 'init': [rng.randint(0, 1) for _ in range(N)],
                'R': rng.choice([30, 90, 150, 37, rng.randrange(256), rng.randrange(256)]),
                'T': rng.choice([2, 3, rng.randint(2, 10)])}
+    # ---- continue: evolve T1 steps, then T2 more with the SAME rule object; the rule's vector is observed
+    for N in (1, 2):
+        states = _bits(N)
+        for R in range(0, 256, 1 if thorough else 7):
+            for prev in states:
+                for init in states:
+                    T1, T2 = rng.choice([(1, 2), (2, 1), (2, 2), (2, 3), (3, 2), (3, 3)])
+                    yield _run('continue/sweep/N%d' % N, [init], 'list', R, T1, prev=prev, op='continue', T2=T2)
+    for _ in range(3000 if thorough else 500):
+        yield _rand_way(rng, 'continue', rng.randint(1, 12), rng.choice([30, 90, 150, 45, rng.randrange(256)]),
+                        rng.randint(1, 6), op='continue', T2=rng.randint(1, 6), dtypes=('int64', 'int64', 'int32', 'bool'))
 
 
 def _ints(rows):
     return [[int(x) for x in row] for row in rows]
+
+
+def _vec(v):
+    return [int(x) for x in v]
+
+
+def _setup(c):
+    """the caller's objects: (ca, obj or None, init_state)"""
+    ca = np.array(c['ca'], dtype=_DT[c.get('dtype', 'int64')])
+    way = c['way']
+    if way == 'list':
+        obj = tuple(c['prev']) if c.get('pkind') == 'tuple' else list(c['prev'])
+        return ca, obj, obj
+    if way == 'array':
+        obj = np.array(c['prev'], dtype=_DT[c.get('pkind', 'int64')])
+        return ca, obj, obj
+    if way == 'view':
+        return ca, None, ca[c['row']]
+    obj = np.array(c['other'], dtype=_DT[c.get('odtype', 'int64')])
+    return ca, obj, obj[c['row']]
+
+
+def _after(c, ca, obj):
+    after = [_ints(ca.tolist())]
+    if c['way'] in ('list', 'array'):
+        after.append([_vec(obj)])
+    elif c['way'] == 'viewother':
+        after.append(_ints(obj.tolist()))
+    return after
 
 
 def run_impl(c):
@@ -145,32 +251,24 @@ def run_impl(c):
             return [out1l, _ints(out2.tolist())]
         return list(call_impl(go))
 
-    def go():
-        ca = np.array(c['ca'])
-        way = c['way']
-        if way == 'list':
-            obj = list(c['prev'])
-            init_state = obj
-        elif way == 'array':
-            obj = np.array(c['prev'])
-            init_state = obj
-        elif way == 'view':
-            obj = None
-            init_state = ca[c['row']]
-        else:
-            obj = np.array(c['other'])
-            init_state = obj[c['row']]
-        rule = cpl.ReversibleRule(init_state, R)
-        out = cpl.evolve(ca, T, rule, r=1)
-        after = [_ints(ca.tolist())]
-        if way == 'list':
-            after.append([[int(x) for x in obj]])
-        elif way == 'array':
-            after.append([[int(x) for x in obj.tolist()]])
-        elif way == 'viewother':
-            after.append(_ints(obj.tolist()))
-        return [_ints(out.tolist()), after]
-    return list(call_impl(go))
+    ca, obj, init_state = _setup(c)
+    if c['op'] == 'continue':
+        def go():
+            rule = cpl.ReversibleRule(init_state, R)
+            out1 = cpl.evolve(ca, T, rule, r=1)
+            o1, p1 = _ints(out1.tolist()), _vec(rule._previous_state)
+            out2 = cpl.evolve(out1, c['T2'], rule, r=1)
+            return [[o1, p1], [_ints(out2.tolist()), _vec(rule._previous_state)]]
+    else:
+        def go():
+            rule = cpl.ReversibleRule(init_state, R)
+            return _ints(cpl.evolve(ca, T, rule, r=1).tolist())
+    r = list(call_impl(go))
+    try:
+        r.append(_after(c, ca, obj))        # observed also when the call raised
+    except Exception:                        # noqa
+        r.append([])
+    return r
 
 
 def _heap(c):
@@ -193,16 +291,24 @@ def _arg(c):
     return '(ArgView 1%%nat %s)' % cnat(c['row'])
 
 
+def _lenient(c):
+    return 'float64' in (c.get('dtype'), c.get('pkind'), c.get('odtype'))
+
+
 def to_coq(c, obs):
     if c['op'] == 'retrace':
         o = cres(obs, lambda v: '(%s, %s)' % (cgrid(v[0]), cgrid(v[1])))
         return '(CRetrace %s %s %s %s %s)' % (czlist(c['prev']), czlist(c['init']), cN(c['R']), cnat(c['T']), o)
-    o = cres(obs, lambda v: '(%s, %s)' % (cgrid(v[0]), clist(v[1], cgrid)))
-    return '(CRun %s 0%%nat %s %s %s %s)' % (clist(_heap(c), cgrid), _arg(c), cN(c['R']), cnat(c['T']), o)
+    heap, after = clist(_heap(c), cgrid), clist(obs[2], cgrid)
+    if c['op'] == 'continue':
+        o = cres(obs, lambda v: '((%s, %s), (%s, %s))' % (cgrid(v[0][0]), czlist(v[0][1]), cgrid(v[1][0]), czlist(v[1][1])))
+        return '(CContinue %s 0%%nat %s %s %s %s %s %s)' % (heap, _arg(c), cN(c['R']), cnat(c['T']), cnat(c['T2']), o, after)
+    return '(CRun %s %s 0%%nat %s %s %s %s %s)' % (cbool(_lenient(c)), heap, _arg(c), cN(c['R']), cnat(c['T']),
+                                                  cres(obs, cgrid), after)
 
 
 def nontrivial(c, obs):
-    return obs[0] == 'ok' and c['T'] >= 2
+    return obs[0] == 'ok' and c['T'] + c.get('T2', 1) - 1 >= 2
 
 
 def _f(R, s):
@@ -220,37 +326,69 @@ def _prev_of(c):
     return c['other'][c['row']]
 
 
+def _seq(c, steps):
+    """s_{-1}, s_0, ..., s_steps of the recurrence, computed independently"""
+    R = c['R']
+    rows = [_prev_of(c), c['ca'][-1]]
+    for _ in range(steps):
+        rows.append([a ^ b for a, b in zip(_f(R, rows[-1]), rows[-2])])
+    return rows
+
+
+def _check_rows(c, out, T, H, base):
+    """out = base (H rows) followed by s_1..s_{T-1}"""
+    if len(out) != H + T - 1:
+        return 'result has %d rows, expected %d' % (len(out), H + T - 1)
+    if out[:H] != base:
+        return 'the first %d rows of the result are not the automaton that was given (row 0 = %r)' % (H, out[0])
+    return None
+
+
 def oracle(c, obs):
     """The property itself on the implementation's output: prefix intact, caller's objects intact,
-    second-order recurrence; for retrace cases: the backward run is the forward run reversed + prev."""
-    if obs[0] != 'ok':
-        return 'the call raised %s on an input of the domain' % obs[1]
+    second-order recurrence; for retrace cases: the backward run is the forward run reversed + prev;
+    for continue cases: the two runs with one rule object are one long run."""
     R, T = c['R'], c['T']
     if c['op'] == 'retrace':
+        if obs[0] != 'ok':
+            return 'the call raised %s on an input of the domain' % obs[1]
         out1, out2 = obs[1]
         if out2 != out1[:-1][::-1] + [c['prev']]:
             return 'backward run does not retrace the forward run'
         return None
-    out, after = obs[1]
-    H = len(c['ca'])
-    if len(out) != H + T - 1:
-        return 'result has %d rows, expected %d' % (len(out), H + T - 1)
-    if out[:H] != c['ca']:
-        return 'the first %d rows of the result are not the automaton that was given (row 0 = %r)' % (H, out[0])
-    if after != _heap(c):
+    if obs[2] != _heap(c):
         return "the caller's arrays changed during the call"
-    before, cur = _prev_of(c), c['ca'][-1]
+    if obs[0] != 'ok':
+        return None if _lenient(c) else 'the call raised %s on an input of the domain' % obs[1]
+    H = len(c['ca'])
+    if c['op'] == 'continue':
+        (out1, p1), (out2, p2) = obs[1]
+        T2 = c['T2']
+        s = _seq(c, T + T2 - 2)          # s[k+1] = s_k
+        m = _check_rows(c, out1, T, H, c['ca']) or _check_rows(c, out2, T2, len(out1), out1)
+        if m:
+            return m
+        if out2[H - 1:] != s[1:]:
+            return 'continuing with the same rule object is not the run of %d steps' % (T + T2 - 1)
+        if p1 != s[T - 1] or p2 != s[T + T2 - 2]:
+            return "the rule's previous-state vector is not the row before the last one"
+        return None
+    out = obs[1]
+    m = _check_rows(c, out, T, H, c['ca'])
+    if m:
+        return m
+    s = _seq(c, T - 1)
     for t in range(1, T):
-        nxt = [a ^ b for a, b in zip(_f(R, cur), before)]
-        if out[H - 1 + t] != nxt:
+        if out[H - 1 + t] != s[t + 1]:
             return 'row %d is not f_R(row %d) xor row %d' % (H - 1 + t, H - 2 + t, H - 3 + t)
-        before, cur = cur, nxt
     return None
 
 
 def shrink(c):
     if c['T'] > 2:
         yield dict(c, T=c['T'] - 1)
+    if c.get('T2', 1) > 1:
+        yield dict(c, T2=c['T2'] - 1)
     if c['R'] not in (90, 150):
         yield dict(c, R=90)
     if c['op'] == 'retrace':
@@ -267,6 +405,131 @@ def shrink(c):
         yield d
     if len(c['ca']) > 1 and c['way'] != 'view':
         yield dict(c, ca=c['ca'][-1:])
+
+
+# ------------------------------------------------------------------ AST gate on ReversibleRule.__init__
+# The no-alias theorems are about `mk_reversible`, which allocates a fresh copy BY DEFINITION; the source
+# line that has to do the same is `self._previous_state = np.array(init_state)`.  The gate parses the tree
+# under test and requires every assignment of the attribute `self._previous_state` in class ReversibleRule to
+# be one of a small whitelist of expressions that copy the constructor's parameter.  Fail-closed: anything
+# else (np.asarray, bare assignment, copy=False, a helper call, a second assignment elsewhere) is a finding.
+_gate_t0 = [0.0]
+
+
+def _is_name(e, name):
+    return isinstance(e, ast.Name) and e.id == name
+
+
+def _is_np(e, fn):
+    return (isinstance(e, ast.Attribute) and e.attr == fn and isinstance(e.value, ast.Name)
+            and e.value.id in ('np', 'numpy'))
+
+
+def _copying(e, param):
+    """is `e` one of: np.array(param[, dtype=..][, copy=True]) | np.copy(param) | list(param) | param.copy()"""
+    if not isinstance(e, ast.Call):
+        return False
+    kws = {k.arg: k.value for k in e.keywords}
+    if None in kws:
+        return False
+    if _is_np(e.func, 'array'):
+        if len(e.args) != 1 or not _is_name(e.args[0], param) or not set(kws) <= {'dtype', 'copy'}:
+            return False
+        cp = kws.get('copy')
+        return cp is None or (isinstance(cp, ast.Constant) and cp.value is True)
+    if _is_np(e.func, 'copy') or _is_name(e.func, 'list'):
+        return len(e.args) == 1 and _is_name(e.args[0], param) and not kws
+    if isinstance(e.func, ast.Attribute) and e.func.attr == 'copy' and _is_name(e.func.value, param):
+        return not e.args and not kws
+    return False
+
+
+def ast_gate(repo):
+    """None if ReversibleRule.__init__ provably copies init_state; else a description of what was found"""
+    path = os.path.join(repo, 'cellpylib', 'ca_functions.py')
+    try:
+        tree = ast.parse(open(path).read())
+    except (OSError, SyntaxError) as e:
+        return 'cannot parse %s: %s' % (path, e)
+    cls = [n for n in tree.body if isinstance(n, ast.ClassDef) and n.name == 'ReversibleRule']
+    if len(cls) != 1:
+        return 'class ReversibleRule not found exactly once at module level'
+    init = [n for n in cls[0].body if isinstance(n, ast.FunctionDef) and n.name == '__init__']
+    if len(init) != 1 or len(init[0].args.args) < 2 or init[0].args.args[0].arg != 'self':
+        return 'ReversibleRule.__init__(self, init_state, ...) not found'
+    param = init[0].args.args[1].arg
+
+    def targets_attr(t):
+        return (isinstance(t, ast.Attribute) and t.attr == '_previous_state' and _is_name(t.value, 'self'))
+
+    found = []
+    for fn in ast.walk(cls[0]):
+        if isinstance(fn, (ast.Assign, ast.AugAssign, ast.AnnAssign, ast.NamedExpr, ast.Delete, ast.For, ast.With)):
+            tg = (fn.targets if isinstance(fn, (ast.Assign, ast.Delete)) else
+                  [fn.target] if isinstance(fn, (ast.AugAssign, ast.AnnAssign, ast.NamedExpr, ast.For)) else
+                  [i.optional_vars for i in fn.items if i.optional_vars is not None])
+            flat = []
+            for t in tg:
+                flat.extend(t.elts if isinstance(t, (ast.Tuple, ast.List)) else [t])
+            if any(targets_attr(t) for t in flat):
+                found.append(fn)
+    inits = [n for n in ast.walk(init[0]) if n in found]
+    if not inits:
+        return 'no assignment of self._previous_state in __init__'
+    for n in found:
+        ok = (isinstance(n, ast.Assign) and len(n.targets) == 1 and targets_attr(n.targets[0])
+              and n in inits and _copying(n.value, param))
+        if not ok:
+            return 'line %d: `%s` is not a whitelisted copy of `%s`' % (n.lineno, ast.unparse(n), param)
+    # the parameter must not be rebound before the copy, and setattr/__dict__ tricks are not in the subset
+    for n in ast.walk(cls[0]):
+        if isinstance(n, ast.Name) and n.id in ('setattr', '__dict__', 'vars', 'object'):
+            return 'line %d: `%s` used in class ReversibleRule' % (n.lineno, n.id)
+        if isinstance(n, ast.Attribute) and n.attr in ('__dict__', '__setattr__'):
+            return 'line %d: `%s` used in class ReversibleRule' % (n.lineno, n.attr)
+    for n in ast.walk(init[0]):
+        if isinstance(n, ast.Name) and n.id == param and isinstance(n.ctx, (ast.Store, ast.Del)):
+            return 'line %d: parameter `%s` is rebound in __init__' % (n.lineno, param)
+    return None
+
+
+def pre(ctx):
+    _gate_t0[0] = time.time()
+
+
+def extra_checks(ctx):
+    from harness import driver
+    msg = ast_gate(driver.REPO)
+    info = {'info': True, 'what': 'AST gate on ReversibleRule.__init__ (self._previous_state must be a copy)',
+            'result': msg or 'ok: whitelisted copying expression'}
+    if msg is None:
+        return [info]
+    detail = {'theorems': ['C13_reversible_no_alias', 'C13_no_alias_view_of_row0', 'C13_reversible_frame'],
+              'gate': msg,
+              'meaning': 'the no-alias theorems speak about mk_reversible (fresh copy); ReversibleRule.__init__ of the '
+                         'tree under test no longer assigns a whitelisted copying expression, so the theorems are no '
+                         'longer tied to this source line'}
+    # replays with a concrete failing input that the correspondence / the oracle wrote in this run
+    hit = []
+    for p in sorted(glob.glob(os.path.join(driver.VERIF, driver.REPLAY_DIR, 'C13-%d-*.json' % ctx.seed))):
+        base = os.path.basename(p)
+        if not re.match(r'^C13-\d+-(corr|oracle)\d+\.json$', base) or os.path.getmtime(p) < _gate_t0[0]:
+            continue
+        try:
+            rp = json.load(open(p))
+            if rp.get('failing'):          # a 'no-failing-input-found' replay of the correspondence
+                continue
+            rp['ast_gate'] = detail
+            json.dump(rp, open(p, 'w'), indent=1, default=str)
+            hit.append(base)
+        except (OSError, ValueError):
+            pass
+    if hit:
+        info['gate_failed'] = detail
+        info['failing_input_replays'] = hit
+        return [info]
+    return [info, dict(detail, what='AST gate: ReversibleRule.__init__ does not provably copy init_state: ' + msg,
+                       case={}, suffix=' no-failing-input-found')]
 
 
 # ------------------------------------------------------------------ source tie (appended; harness/translate.py)
